@@ -23,14 +23,19 @@ def main():
         return tlc.run_trace_validation(os.path.join(work, "tv%d" % i), slim, name="b%d" % i)
     with ThreadPoolExecutor(nb) as ex:
         outs = list(ex.map(val, enumerate(batches)))
+    known = check.load_known()
     fails = collections.Counter(); drifts = collections.Counter(); ex_f = {}; ex_d = {}; outc = collections.Counter()
     wit = collections.Counter()
     for b, (vs, st, wall) in zip(batches, outs):
         for t, v in zip(b, vs):
             outc[t["outcome"] + ":" + t["crash"]["type"] + ":" + t["crash"]["where"]] += 1
             for w in v["wits"]: wit[w] += 1
+            taint = {x[0]: x[1] for x in v.get("taint", [])}
             for c, idx in v["fails"]:
-                fails[c] += 1; ex_f.setdefault(c, (t["family"], t["seed"], idx))
+                prop = c.split(".")[0]
+                kn = [f["id"] for f in known if f["status"] == "open" and prop in f["property"] and f["id"] in taint and taint[f["id"]] <= idx]
+                key = c + ("  [known " + kn[0] + "]" if kn else "")
+                fails[key] += 1; ex_f.setdefault(key, (t["family"], t["seed"], idx))
             for d in v["drift"][:1]:
                 key = d[1] + ":" + ",".join(sorted(d[2]))
                 drifts[key] += 1; ex_d.setdefault(key, (t["family"], t["seed"], d[0]))
